@@ -263,14 +263,15 @@ Proof.
 Qed.
 
 Section ByteLevel.
+  Variable kf : name_key.
   Variable m : mode.
   (* The bin-archive round trip for archives made of raw bytes and labels - an instance of the
      C01 round-trip theorem; to be discharged when the developments are merged. *)
   Hypothesis bytes_round_trip : forall a, plain_labelled a ->
-    exists f a', BinFormat.serialize m a = Ok f /\ BinFormat.from_bytes (a_endian a) f = Ok a' /\ obs_equal a a'.
+    exists f a', BinFormat.serialize_k kf m a = Ok f /\ BinFormat.from_bytes (a_endian a) f = Ok a' /\ obs_equal a a'.
 
   Theorem text_round_trip_bytes fmt e t : wf_text fmt t -> wf_text_bytes fmt e t ->
-    exists f, TextFormat.serialize m fmt e t = Ok f /\ TextFormat.from_bytes fmt e f = Ok (parsed fmt t).
+    exists f, TextFormat.serialize kf m fmt e t = Ok f /\ TextFormat.from_bytes fmt e f = Ok (parsed fmt t).
   Proof.
     intros Hw Hb. destruct (bytes_round_trip (text_image fmt e t) (text_image_plain fmt e t Hb)) as (f & a' & Hs & Hp & Ho).
     exists f. unfold TextFormat.serialize, TextFormat.from_bytes. rewrite build_archive_spec. cbn [bind]. split; [exact Hs|].
@@ -281,7 +282,7 @@ Section ByteLevel.
   (* the layout, on the file: in the archive parsed from the image every entry's offset is a
      multiple of 4, carries exactly the label [key] and holds exactly the message's cell *)
   Theorem text_layout_bytes fmt e t : wf_text_bytes fmt e t ->
-    exists f a', TextFormat.serialize m fmt e t = Ok f /\ BinFormat.from_bytes e f = Ok a' /\
+    exists f a', TextFormat.serialize kf m fmt e t = Ok f /\ BinFormat.from_bytes e f = Ok a' /\
       forall i k msg, nth_error (t_entries t) i = Some (k, msg) ->
         let off := entry_offset fmt t i in
         off mod 4 = 0 /\ read_labels a' off = Ok (Some [k]) /\ sliceN off (lenN (cell fmt msg)) (a_data a') = Some (cell fmt msg).
@@ -333,14 +334,14 @@ Proof.
 Qed.
 
 (* the premise of the byte-level statements: the bin-archive round trip on plain labelled archives *)
-Definition bin_round_trip_premise (m : mode) : Prop :=
+Definition bin_round_trip_premise (kf : name_key) (m : mode) : Prop :=
   forall a, plain_labelled a ->
-    exists f a', BinFormat.serialize m a = Ok f /\ BinFormat.from_bytes (a_endian a) f = Ok a' /\ obs_equal a a'.
+    exists f a', BinFormat.serialize_k kf m a = Ok f /\ BinFormat.from_bytes (a_endian a) f = Ok a' /\ obs_equal a a'.
 
-Theorem text_round_trip_bytes_explicit m : bin_round_trip_premise m ->
+Theorem text_round_trip_bytes_explicit kf m : bin_round_trip_premise kf m ->
   forall fmt e t, wf_text fmt t -> wf_text_bytes fmt e t ->
-    exists f t', TextFormat.serialize m fmt e t = Ok f /\ TextFormat.from_bytes fmt e f = Ok t' /\ same_text fmt t t'.
+    exists f t', TextFormat.serialize kf m fmt e t = Ok f /\ TextFormat.from_bytes fmt e f = Ok t' /\ same_text fmt t t'.
 Proof.
-  intros P fmt e t Hw Hb. destruct (text_round_trip_bytes m P fmt e t Hw Hb) as (f & Hs & Hp).
+  intros P fmt e t Hw Hb. destruct (text_round_trip_bytes kf m P fmt e t Hw Hb) as (f & Hs & Hp).
   exists f, (parsed fmt t). repeat split; try assumption; apply same_text_parsed.
 Qed.
